@@ -15,10 +15,15 @@ THEOREMS = [
     "Rtosc.Ring.read_resyncs_lookahead",
     "Rtosc.Ring.conc_inv", "Rtosc.Ring.conc_drf", "Rtosc.Ring.conc_fifo", "Rtosc.Ring.conc_lossless",
     "Rtosc.Ring.hasNext_exact", "Rtosc.Ring.conc_accept_exact", "Rtosc.Ring.conc_publish",
+    # lookahead reads / hasNextLookahead under every interleaving (review A3)
+    "Rtosc.Ring.conc_cursor_is_queue", "Rtosc.Ring.conc_lookahead_fifo", "Rtosc.Ring.hasNext_exact_cursor",
+    "Rtosc.Ring.hasNextLookahead_exact", "Rtosc.Ring.conc_read_exact", "Rtosc.Ring.conc_quiescent_queue",
     # the same, instantiated with the model of rtosc_message_ring_length (C01) on encoded OSC messages
     "Rtosc.Ring.framing_osc", "Rtosc.Ring.rawLen_msg", "Rtosc.Ring.seq_refines_queue_osc", "Rtosc.Ring.drop_whole_osc",
     "Rtosc.Ring.conc_inv_osc", "Rtosc.Ring.conc_drf_osc", "Rtosc.Ring.conc_fifo_osc", "Rtosc.Ring.conc_lossless_osc",
     "Rtosc.Ring.hasNext_exact_osc", "Rtosc.Ring.conc_accept_exact_osc",
+    "Rtosc.Ring.conc_cursor_is_queue_osc", "Rtosc.Ring.conc_lookahead_fifo_osc", "Rtosc.Ring.hasNext_exact_cursor_osc",
+    "Rtosc.Ring.hasNextLookahead_exact_osc", "Rtosc.Ring.conc_read_exact_osc", "Rtosc.Ring.conc_quiescent_queue_osc",
     "Rtosc.Ring.bundle_not_self_delimiting_counterexample", "Rtosc.Ring.raw_write_bundle_hang_counterexample",
 ]
 HARNESS = {"src": ["tlink.cpp"], "exclude": ["src/cpp/thread-link.cpp"], "deps": ["common.h", "tl_sched.h"]}
@@ -83,15 +88,26 @@ LEVEL_TEXT = ("Lean theorems, stated for an abstract framing function and instan
               "shared access, any memcpy chunking) keeps the ring invariant, is free of data races on ring bytes, returns "
               "exactly the published messages in order, accepts a write iff it fits at the moment the writer loads the "
               "read index (conc_accept_exact) and publishes exactly the accepted bytes, and answers hasNext exactly, for "
-              "every interleaving of every history (induction over steps, no bound). The models are compared with the "
+              "every interleaving of every history (induction over steps, no bound). Lookahead under concurrency: the "
+              "lookahead offset of every reachable state is the ring offset of the FIFO's lookahead cursor computed from "
+              "the reader's own results (the cursor arithmetic of the abstract queue, conc_cursor_is_queue); every "
+              "completed read or read_lookahead that returned a message returned the published message at its cursor "
+              "(conc_lookahead_fifo); read and read_lookahead return, whatever both threads do until they complete, the "
+              "message that was published at their cursor when they loaded the write index, and nothing exactly when the "
+              "cursor was at the end of the published messages at that load (conc_read_exact); hasNext and "
+              "hasNextLookahead answer exactly 'a published message lies at the cursor' at their load "
+              "(hasNext_exact_cursor, hasNextLookahead_exact); a state with both threads between operations is a "
+              "sequential ThreadLink that refines the bounded FIFO holding the unconsumed published messages with that "
+              "lookahead cursor, for any further history (conc_quiescent_queue). The models are compared with the "
               "compiled thread-link.cpp under a deterministic scheduler (same schedule on both sides, access traces and "
               "outputs equal) and an independent FIFO reference, keyed on explicit operation begin/end markers, is "
               "evaluated on the implementation's outputs")
 LEVEL_NOTE = ("memory-model effects below seq_cst/DRF-SC are outside the model (orders are checked by the harness, TSan soak "
-              "as supporting evidence). The lookahead clauses (lookahead_replays, read_resyncs_lookahead) and "
-              "hasNextLookahead are proved for the sequential model only: under concurrency the theorems cover consuming "
-              "reads, hasNext and acceptance; lookahead reads and hasNextLookahead under interleaving are covered by the "
-              "scheduled correspondence runs and the oracle only. A pure difference in the access trace with identical "
+              "as supporting evidence). The concurrent read/lookahead theorems are safety statements: they say what a "
+              "read, read_lookahead, hasNext or hasNextLookahead returns when it completes (determined at its load of the "
+              "write index), not that it completes (no progress theorem is stated). The concurrent theorems are per linearisation point; a single "
+              "refinement theorem 'every interleaved run is a run of the bounded FIFO under some linearisation order of "
+              "all operations' is not stated as such. A pure difference in the access trace with identical "
               "results (e.g. an extra load of an index) is reported as a correspondence break "
               "(no-failing-input-found), not as a failing input")
 
